@@ -323,6 +323,10 @@ func (la *lockAnalysis) summarize(fn *ssa.Function) []lockNeed {
 			if g == fn {
 				continue
 			}
+			// a method invoked on an object allocated in this very function (still under construction)
+			if recvNamed(g) == la.spec.Owner && len(call.Common().Args) > 0 && !call.Common().IsInvoke() && la.freshBases(fn)[call.Common().Args[0]] {
+				continue
+			}
 			for _, n := range la.summarize(g) {
 				la.NObl++
 				if h >= n.Mode {
